@@ -35,7 +35,7 @@ def qffpJ (f : QFFp) : Json :=
 def fpJ : Fp → Json
   | .dead => Json.null
   | .qf f => qffpJ f
-  | .unbound i => Json.mkObj [("k", Json.str "unb"), ("prog", toJson i)]
+  | .unbound i defs => Json.mkObj [("k", Json.str "unb"), ("prog", toJson i), ("defs", toJson defs)]
   | .alg kind circ outq sub own =>
     Json.mkObj [("k", Json.str "alg"), ("cls", Json.str kind), ("circ", circJ circ),
       ("outq", toJson outq), ("sub", toJson sub),
